@@ -87,6 +87,27 @@ func (v *PacketDslFormattor) getHiddenRightAtSameLine(token antlr.Token) string 
 	return strings.TrimRight(sb.String(), "\n")
 }
 
+// getHiddenRight returns the comments behind token that have not been printed yet, each
+// on a line of its own.
+func (v *PacketDslFormattor) getHiddenRight(token antlr.Token) string {
+	if token == nil {
+		return ""
+	}
+	hidden := v.tokenStream.GetHiddenTokensToRight(token.GetTokenIndex(), antlr.TokenHiddenChannel)
+	var sb strings.Builder
+	for _, t := range hidden {
+		if t.GetTokenType() == gen.PacketDslParserLINE_COMMENT {
+			if _, ok := v.lineComments[t]; ok {
+				continue
+			}
+			v.lineComments[t] = struct{}{}
+			sb.WriteString("\n")
+			sb.WriteString(t.GetText())
+		}
+	}
+	return sb.String()
+}
+
 // getHiddenBeforeClose returns the comments standing in front of the closing brace of a
 // block, indented like the members of the block.
 func (v *PacketDslFormattor) getHiddenBeforeClose(token antlr.Token) string {
@@ -125,6 +146,7 @@ func (v *PacketDslFormattor) VisitPacket(ctx *gen.PacketContext) interface{} {
 		}
 	}
 	formattedDsl.WriteString(v.getHiddenRightAtSameLine(ctx.GetStop()))
+	formattedDsl.WriteString(v.getHiddenRight(ctx.GetStop()))
 	return formattedDsl.String()
 }
 
